@@ -70,6 +70,33 @@ def check_doc(spec, hist, infinite_weight=False, mutate=True):
     return out, stats
 
 
+def check_merged_doc(spec, value):
+    """Documents of states reached by merging (their accumulators carry rounding residue, e.g. a variance a few 1e-17 below
+    zero): whatever toJson writes, fromJson reads back."""
+    import histogrammar as hg
+
+    args = {"spec": spec, "value": value}
+    try:
+        rec = dict(A.DEFAULTS, x=value, y=value)
+        stages = [core.mk(spec, [(rec, 1.0)] * 2) + core.mk(spec, [(rec, 1.0)] * 5),
+                  core.mk(spec, [(rec, 1.0)]) + core.mk(spec, [(rec, 1.0)] * 5)]
+        h = stages[0].copy()
+        h += core.mk(spec, [(rec, 1.0)] * 3)
+        stages.append(h)
+        docs = [json.loads(json.dumps(x.toJson())) for x in stages]
+    except Exception:
+        return []
+    for doc in docs:
+        try:
+            r = hg.Factory.fromJson(doc)
+            if json.loads(json.dumps(r.toJson())) != doc:
+                return [FW.violation(PROP, "valid-doc", "document of a merged state reloads as another document:" + spec["t"],
+                                     "differs", args, {})]
+        except Exception as e:
+            return [core.v_exc(PROP, "valid-doc", "fromJson rejected a document produced by toJson (merged state)", e, args)]
+    return []
+
+
 def _peek(doc, path):
     try:
         return J.get(doc, path)
@@ -83,6 +110,11 @@ def _tree(task):
     acc.n("trees")
     evs = A.events(spec, "core", cap=6, noop=False, weights=[1.0])
     hists = [[], [evs[0], evs[len(evs) // 2], evs[-1]]]
+    if any(n["t"] in ("Deviate", "Average") for _, _, n in S.node_ids(spec)) and not any(n.get("tr") for _, _, n in S.node_ids(spec)):
+        for value in (0.3, 0.1, 1.0 / 3.0):
+            acc.add(check_merged_doc(spec, value))
+            acc.n("documents")
+            acc.n("documents_of_merged_states")
     if task[2:] == ("valid-only",):
         # only "every document toJson produces can be read back" (the mutants of these shapes are those of their parts)
         for hist in hists:
@@ -185,5 +217,7 @@ def run(tier, seed):
 
 
 def replay(driver, args):
+    if "value" in args and "hist" not in args:
+        return check_merged_doc(args["spec"], args["value"])
     vs, _ = check_doc(args["spec"], core.unshow_evs(args["hist"]), args.get("infinite_weight", False))
     return vs
